@@ -85,6 +85,57 @@ def router_check(pid, tier):
     return rc
 
 
+SERVER_ASSUME = [
+    "loopback QUIC with certificates generated in the run; raw peers bypass the client library",
+    "stream opens inside one case are sequential; concurrency of the registration path is covered by the ServerReg model and the stall scenario",
+    "'never' is concluded from a 30 s bound (stall scenario) / 10 s bounds (probes); normal completion takes milliseconds",
+]
+
+
+def server_check(pid, tier):
+    """C11 / C17: ServerReg.tla model + raw-peer e2e + (C11) the router-level frame-sequence runs."""
+    import e2e_checks
+    t0 = time.time()
+    sp = e2e_checks.server_pipeline(tier)
+    if not sp["model_ok"]:
+        raise ToolError("TLC reports ServerReg violates its properties on the repaired flow:\n" + sp["model_tail"])
+    viols = [dict(v, kind="server:" + v["kind"]) for v in sp["viol"] if pid in v["props"]]
+    models = list(sp["models"])
+    extra = {}
+    if pid == "C11":
+        rr = routers.pipeline("reqrep", tier)
+        ps = routers.pipeline("pubsub", tier)
+        for r in (rr, ps):
+            if not r["model"]["ok"]:
+                raise ToolError("router model violated: %s" % r["model"]["violated"])
+            for v in r["viol"]:
+                if pid in v["props"]:
+                    viols.append(dict(v, kind="%s:%s" % (r["kind"], v["kind"]), event={}, context=v.get("trace", [])[-25:]))
+            models += [{k: m[k] for k in ("module", "cfg", "states", "transitions", "wall_s")} for m in r["models"]]
+        extra = {"router_runs": rr["runs"] + ps["runs"], "router_events": rr["events"] + ps["events"]}
+
+    def mk(v):
+        return write_replay(pid, v["kind"], {"property": pid, "signature": v["kind"], "event": v.get("event"),
+                                             "context": v.get("context"), "schedule": v.get("schedule"),
+                                             "router": v.get("router"), "how": "./check %s (deterministic for VERIF_SEED)" % pid})
+    rc, n_new, hit = verdict(pid, viols, mk)
+    cov = {
+        "states": sum(m["states"] for m in models), "transitions": sum(m["transitions"] for m in models),
+        "traces_validated_against_impl": sp["runs"] + extra.get("router_runs", 0),
+        "events_validated": sp["events"] + extra.get("router_events", 0),
+        "models": models, "cases_enumerated_by_tlc": sp["cases_total"], "cases_used": sp["cases_used"],
+        "known_findings_hit": hit, "samples": sp["samples"][:12],
+        "pipeline_reused_from_cache": bool(sp.get("cached")),
+        "explanation": "TLC checks ServerReg.tla (answered truthfully, refusal creates no topic, no channel send under the global lock; "
+                       "liveness: a registration on another topic is served although one topic is stalled) and enumerates the first-frame/"
+                       "topic assignments; raw QUIC peers replay them against the real server, hook events from handle_stream and the "
+                       "peers' observations are validated by TLC against the specification; a stalled topic with an over-full "
+                       "registration queue is built for real and another topic is probed.",
+    }
+    write_evidence(pid, tier, "model_checking", cov, time.time() - t0, n_new, SERVER_ASSUME + (ROUTER_ASSUME if pid == "C11" else []))
+    return rc
+
+
 def replay(pid, path):
     payload = json.load(open(path))
     if "router" in payload:
@@ -120,8 +171,24 @@ CHECKS = {p: router_check for p in ROUTER_PROPS}
 
 def _pure(pid, tier):
     import pure
-    return pure.check(pid, tier)
+    rc = pure.check(pid, tier)
+    if pid == "C07":
+        # server-side enforcement and isolation: the raw-peer e2e run
+        import e2e_checks
+        sp = e2e_checks.server_pipeline(tier)
+        viols = [dict(v, kind="server:" + v["kind"]) for v in sp["viol"] if "C07" in v["props"]]
+        rc2, n_new, hit = verdict(pid, viols, lambda v: write_replay(pid, v["kind"], {"property": pid, "signature": v["kind"], "event": v.get("event"), "context": v.get("context")}))
+        ev_path = os.path.join(os.path.dirname(os.path.dirname(os.path.abspath(__file__))), "evidence", "C07.json")
+        ev = json.load(open(ev_path))
+        ev["coverage"]["server_side"] = {"raw_peer_cases": sp["cases_used"], "events_validated": sp["events"],
+                                         "runs_flagged": len(viols), "isolation_pairs": 6}
+        ev["violations"] = ev.get("violations", 0) + n_new
+        json.dump(ev, open(ev_path, "w"), indent=1, sort_keys=True)
+        rc = max(rc, rc2)
+    return rc
 
 
-for _p in ("C03", "C05", "C06", "C07", "C13", "C14"):
+CHECKS["C11"] = server_check
+CHECKS["C17"] = server_check
+for _p in ("C03", "C04", "C05", "C06", "C07", "C13", "C14"):
     CHECKS[_p] = _pure
